@@ -390,18 +390,66 @@ func c01Drain(it obiiter.IBioSequence) (orders []int, recs []c01Rec, status stri
 	return c01DrainFor(c01Patience, it)
 }
 
+// c01DrainFor reads the iterator to its end.  A log.Fatal inside a reader goroutine (captured: it ends that
+// goroutine only) usually leaves the iterator open for ever: once a fatal has been seen and nothing has
+// arrived for 2 s the status is "fatal"; without fatal the status is "timeout" after `patience`.
+// After a few hung readers the remaining ones are not waited for more than 5 s.
+var c01HungReaders int64
+
 func c01DrainFor(patience time.Duration, it obiiter.IBioSequence) (orders []int, recs []c01Rec, status string) {
 	type bt struct {
 		o  int
 		rs []c01Rec
 	}
-	var bs []bt
-	status = guardedFor(patience, func() {
+	if atomic.LoadInt64(&c01HungReaders) >= 3 && patience > 5*time.Second {
+		patience = 5 * time.Second
+	}
+	f0 := fatalCount()
+	ch := make(chan bt, 64)
+	end := make(chan string, 1)
+	go func() {
+		res := "fatal"
+		defer func() {
+			if r := recover(); r != nil {
+				res = fmt.Sprint("panic: ", r)
+			}
+			end <- res
+		}()
 		for it.Next() {
 			b := it.Get()
-			bs = append(bs, bt{b.Order(), c01ObserveSlice(b.Slice())})
+			ch <- bt{b.Order(), c01ObserveSlice(b.Slice())}
 		}
-	})
+		res = ""
+	}()
+	var bs []bt
+	deadline := time.Now().Add(patience)
+	last := time.Now()
+	tick := time.NewTicker(100 * time.Millisecond)
+	defer tick.Stop()
+loop:
+	for {
+		select {
+		case b := <-ch:
+			bs = append(bs, b)
+			last = time.Now()
+		case status = <-end:
+			for len(ch) > 0 {
+				bs = append(bs, <-ch)
+			}
+			break loop
+		case <-tick.C:
+			if fatalCount() > f0 && time.Since(last) > 2*time.Second {
+				status = "fatal"
+				atomic.AddInt64(&c01HungReaders, 1)
+				break loop
+			}
+			if time.Now().After(deadline) {
+				status = "timeout"
+				atomic.AddInt64(&c01HungReaders, 1)
+				break loop
+			}
+		}
+	}
 	for _, b := range bs {
 		orders = append(orders, b.o)
 	}
